@@ -53,6 +53,13 @@ def analyse(patches, name="p.patch"):
                 il = [(l["off"], unb64(l["text"])) for l in (ic[sec] or [])]
                 if ml != il:
                     mm.append("%s lines differ" % sec)
+            # parse.splitPatch: the '-' and '+' versions of the body (text; per line: offset in the text, offset in the patch file)
+            for side in ("minus", "plus"):
+                mv = f(side)[0]
+                iv = ic.get(side) or {}
+                mtext, mlines = unhx(mv[0]), [[int(a), int(b)] for a, b in mv[1]]
+                if mtext != unb64(iv.get("contents") or "") or mlines != (iv.get("lines") or []):
+                    mm.append("the %s version of the body differs (model %r, gopatch %r)" % (side, mtext[:60], unb64(iv.get("contents") or "")[:60]))
             mcom = [unhx(c).decode("utf-8", "replace") for c in f("comments")]
             if mcom != (ic["comments"] or []):
                 mm.append("description %r vs %r" % (mcom, ic["comments"]))
